@@ -176,27 +176,44 @@ def rule_r2(ctx):
     T = ctx.tmpl
     n_groups = 0
     for ci, kinds, entry in T.all_pending():
-        groups = {}
-        for pr in entry.ok_paths():
-            opt = _option_keys(pr)
-            if not opt and not any("configs." in k for p in entry.ok_paths() for k in p.assign):
-                continue
-            rest = tuple(sorted((k, str(v)) for k, v in pr.assign.items() if "configs." not in k))
-            groups.setdefault(rest, []).append(pr)
-        if not groups:
+        okp = entry.ok_paths()
+        if not any("configs." in k for p in okp for k in p.assign):
             continue
         rr.instances += 1
-        for rest, prs in groups.items():
-            if len(prs) < 2:
-                continue
-            n_groups += 1
-            base = prs[0]
-            bsig, batoms, border = _signature(base)
-            for other in prs[1:]:
+        # siblings: paths that differ in an option decision and agree on every other decision they share
+        pairs = []
+        for i, a in enumerate(okp):
+            for b in okp[i + 1:]:
+                oa = {k: v for k, v in a.assign.items() if "configs." in k}
+                ob = {k: v for k, v in b.assign.items() if "configs." in k}
+                if oa == ob:
+                    continue
+                if all(b.assign.get(k, v) == v for k, v in a.assign.items() if "configs." not in k):
+                    pairs.append((a, b))
+        for base, other in pairs:
+            if True:
+                n_groups += 1
+                rest = (id(base), id(other))
+                bsig, batoms, border = _signature(base)
+                bsig = dict(bsig)
                 osig, oatoms, oorder = _signature(other)
+                osig = dict(osig)
                 label = kinds_label(base.extra["node"].kinds)
                 what = f"{label}|siblings|{hash(rest) & 0xffff}"
                 diff = None
+                # a lowered block that the context says is empty may be absent from a sibling
+                empties = set()
+                for p_ in (base, other):
+                    for k, v in p_.assign.items():
+                        if k.startswith("cmp:len(lowered(") and ((k.endswith(">0") and v is False) or (k.endswith("==0") and v is True)):
+                            empties.add("S:" + k[len("cmp:len(lowered("):].split(")")[0])
+                        if k.startswith("nonempty:list(splice:lowered(") and v is False:
+                            empties.add("S:" + k[len("nonempty:list(splice:lowered("):].split(")")[0])
+                for e_ in empties:
+                    bsig.pop(e_, None)
+                    osig.pop(e_, None)
+                border = [x for x in border if x not in empties]
+                oorder = [x for x in oorder if x not in empties]
                 if set(bsig) != set(osig):
                     diff = f"holes differ: {sorted(set(bsig) ^ set(osig))}"
                 elif border != oorder:
